@@ -42,7 +42,8 @@ class Gen:
     def connect_reply_args(self, h):
         rng = self.rng
         self.nrun += 1
-        run = "r%d" % self.nrun
+        # run ids of different applications are several bit flips apart (a mutated message must not hit another live run by chance)
+        run = "r%d%s" % (self.nrun, "qwzjkvbxyp"[self.nrun % 10] * 3)
 
         def lim(mx):
             return rng.choice(["-", "0", "1", "2", "3", "5", "8", str(mx), str(mx + 7)])
@@ -265,7 +266,8 @@ def shutdown_history(rng):
             ops.pop()
     default = rng.choice(["200", "200", "503", "500", "410", "401", "404", "neterr", "429"])
     extra = []
-    for run in ["r1", "r2", "r3"]:
+    import re as _re
+    for run in sorted(set(_re.findall(r"run=(r\d\w*)", " ".join(ops)))):
         for cmd in DEFAULT_CMDS + list(EVENT_CMDS.values()):
             if rng.random() < 0.15:
                 extra.append("%s:%s=%s" % (run, cmd, rng.choice(["200", "503", "410", "409", "413", "neterr"])))
@@ -341,5 +343,38 @@ def lifecycle_history(rng):
             g.ops.append("proc app %s run=%s" % (h, rng.choice(["-", run or "-", "rX"] + g.dead_runs[-1:])))
             g.ops.append("proc advance %d" % rng.choice([1, 15, 31]))
     g.ops.append("proc state")
+    g.ops.append("proc cleanexit default=200")
+    return g.ops
+
+
+def malformed_history(rng):
+    """well-formed traffic for 2-3 applications; corrupt transaction / app / span messages addressed to a victim run (whose
+    own payloads are then not compared) and to unknown run ids, before, between and after the well-formed traffic"""
+    g = Gen(rng, napps=rng.choice([2, 3]), profile="allok", timeout=0)
+    for i in range(1, g.napps + 1):
+        g.defapp(i)
+    for h in g.apps:
+        g.connect(h)
+    victim_app = rng.choice(g.apps)
+    victim = g.run_of[victim_app]
+    g.ops.append("proc taint %s" % victim)
+    others = [g.run_of[h] for h in g.apps if h != victim_app]
+    for _ in range(rng.randint(6, 30)):
+        k = rng.random()
+        if k < 0.45:
+            tgt = victim if rng.random() < 0.8 else rng.choice(["rX", ""] + others[:0])
+            g.txn(tgt if tgt else "rX")
+            spec = g.ops.pop().split(" ", 3)[3]
+            g.ops.append("proc mut %s seed=%d %s" % (tgt if tgt else "rX", rng.randrange(1, 2 ** 48), spec))
+        elif k < 0.75:
+            g.txn(rng.choice(others))
+        elif k < 0.9:
+            g.trigger(rng.choice(others))
+        else:
+            r = rng.choice(others)
+            g.reply(r, outcome="200")
+    g.ops.append("proc state")
+    for r in others:
+        g.drain(r, "200")
     g.ops.append("proc cleanexit default=200")
     return g.ops
